@@ -25,6 +25,9 @@ type Net struct {
 	Failed    int
 	// Mutate, when set, may alter the bytes a store receives from a peer (Byzantine provider).
 	Mutate func(to *Store, c cid.Cid, data []byte) []byte
+	// OnMiss, when set, is called before Get reports content as unavailable (lets the simulator charge a network
+	// time-out to the calling task: retry loops in the product then turn on the simulated clock instead of spinning).
+	OnMiss func()
 }
 
 type Store struct {
@@ -86,6 +89,9 @@ func (s *Store) Get(key []byte, dataType ipfs.DataType) ([]byte, error) {
 				s.Net.Fetches++
 				if s.Net.FetchFail != nil && s.Net.FetchFail(s, c) {
 					s.Net.Failed++
+					if s.Net.OnMiss != nil {
+						s.Net.OnMiss()
+					}
 					return nil, errors.New("simipfs: injected fetch failure")
 				}
 				got := append([]byte{}, v...)
@@ -99,6 +105,9 @@ func (s *Store) Get(key []byte, dataType ipfs.DataType) ([]byte, error) {
 				return append([]byte{}, got...), nil
 			}
 		}
+	}
+	if s.Net != nil && s.Net.OnMiss != nil {
+		s.Net.OnMiss()
 	}
 	return nil, errors.New("simipfs: not found")
 }
@@ -147,11 +156,11 @@ func (s *Store) Unpin(key []byte) error {
 	delete(s.pinned, c)
 	return nil
 }
-func (s *Store) Port() int                           { return 0 }
-func (s *Store) PeerId() string                      { return "" }
-func (s *Store) Host() core2.Host                    { return nil }
+func (s *Store) Port() int                             { return 0 }
+func (s *Store) PeerId() string                        { return "" }
+func (s *Store) Host() core2.Host                      { return nil }
 func (s *Store) ShouldPin(dataType ipfs.DataType) bool { return true }
-func (s *Store) PubSub() *pubsub.PubSub              { return nil }
+func (s *Store) PubSub() *pubsub.PubSub                { return nil }
 func (s *Store) GC() (context.Context, context.CancelFunc) {
 	ctx, cancel := context.WithCancel(context.Background())
 	cancel()
